@@ -995,7 +995,20 @@ impl<'a> Serializer<'a> {
         }
 
         self.write_indentation();
-        let col = self.map.look_up_pos(span.low()).position.column;
+        // the column the comment starts in, counted from the last line break of any kind
+        // (the code map only knows `\n`) and not counting a byte-order mark
+        let loc = self.map.look_up_pos(span.low());
+        let col = loc
+            .file
+            .source_line(loc.position.line)
+            .chars()
+            .take(loc.position.column)
+            .collect::<Vec<char>>()
+            .into_iter()
+            .rev()
+            .take_while(|c| !matches!(c, '\r' | '\u{c}'))
+            .filter(|c| *c != '\u{feff}')
+            .count();
         let mut lines = comment.lines();
 
         if let Some(line) = lines.next() {
